@@ -381,13 +381,14 @@ Theorem C14_invalid_directive_fails_more :
 Proof. exact invalid_directive_fails_more. Qed.
 Print Assumptions C14_invalid_directive_fails_more.
 
-(* a failing command prints nothing, by the result type.  For transcode and weights this is
-   what the code does (both render through a bufio.Writer after the journal has been processed).
-   For returns it is a statement about the MODEL's result type only: performance.Perf prints a
-   line per period end with fmt.Printf while the days are being processed, so a failure on a
-   later day (assertion, missing price) leaves the earlier lines on stdout
-   (findings/C14-returns-partial-stdout.md); the model of returns_cmd describes the output of
-   successful runs. *)
+(* a failing command prints nothing, by the result type.  The property asks this of "balance,
+   print, transcode, infer, check --write".  For transcode (and weights) it is what the code does:
+   both render through a bufio.Writer after the journal has been processed.  For returns - which
+   the property does not list - it is a statement about the MODEL's result type only:
+   performance.Perf prints a line per period end with fmt.Printf while the days are being
+   processed, so in the binary a failure on a later day (assertion, missing price) leaves the
+   earlier lines on stdout; the model of returns_cmd describes the output of successful runs, and
+   the check does not require an empty stdout of a failing `portfolio returns`. *)
 Theorem C14_error_empty_stdout_more :
   forall lenient v fx cfg ds k d,
     (transcode_cmd lenient v ds = CErr k d -> stdout_of (transcode_cmd lenient v ds) = []) /\
